@@ -391,6 +391,22 @@ static std::string runA()
   try { a.allocate(a.max_size() + 1, (const double *)nullptr); o << " hint_len=none"; }
   catch (const std::length_error &) { o << " hint_len=length_error"; }
   catch (...) { o << " hint_len=other"; }
+  // allocators of another element type / another alignment compare equal after conversion; storage obtained from one is
+  // released through the other (deallocate forwards the pointer only)
+  {
+    aligned_allocator<int, 4096> big;
+    aligned_allocator<double, 64> viaD(big);            // other T and other alignment
+    aligned_allocator<int, 64> viaI(big);
+    aligned_allocator<int, 4096> back(viaD);
+    o << " xeq=" << (back == big && !(back != big) && viaI == aligned_allocator<int, 64>(viaD));
+    try {
+      int *q = big.allocate(5);
+      bool ok = q && (uintptr_t)q % 4096 == 0;
+      if (q) { q[0] = 1; q[4] = 5; }
+      viaD.deallocate((double *)q, 0);
+      o << " xfree=" << (ok ? "ok" : "BAD");
+    } catch (...) { o << " xfree=throw"; }
+  }
   int *sb = STACK_BUFFER(int, 8);
   sb[0] = 5; sb[7] = 6;
   o << " stack=" << (sb != nullptr && sb[0] + sb[7] == 11);
